@@ -106,10 +106,30 @@ def run(rep, rng, tier, replay=None):
         rep.sample(dict(graph=dict(edges=c["edges"], D=c["D"]), queries=c["queries"][:3], answers=o["answers"][:3]))
     # through the public API: single remaining edge consumes no number, removal order = order of the kappas
     scases = [SCR.gen_sample_case(rng.fork(), emax=5) for _ in range(30 if tier == "quick" else 200)]
+    # small graphs (E <= 4) reach the special one- and two-edge subgraphs (tadpoles, a single edge that is mass-momentum spanning) often
+    scases += [SCR.gen_sample_case(rng.fork(), emax=4) for _ in range(100 if tier == "quick" else 400)]
     for c in scases[:10]:
         E = len(c["edges"])
         c["point"][0] = f2b(top)          # first edge draw at the top of [0,1)
+    # boundary-hugging draws: along a random removal path every edge draw sits a relative 1e-7 below or above one of the running
+    # sums of that level, so that any other partition of [0,1) (other probabilities, another order) picks another edge
+    stab = harness("table", dict(cases=scases))["results"]
+    for c, t in list(zip(scases, stab))[10:]:
+        if not t.get("ok"):
+            continue
+        r = rng.fork()
+        E = len(c["edges"])
+        g = (1 << E) - 1
+        for k in range(E - 1):
+            ps = prefix_sums(t, g)
+            i = r.below(len(ps))
+            u = ps[i][2] * (1 - 1e-7 if r.chance(0.5) else 1 + 1e-7)
+            u = min(max(u, 0.0), top)
+            c["point"][2 * k] = f2b(u)
+            exp = expected(ps, u)
+            g ^= 1 << (exp[0] if exp is not None else ps[-1][0])
     res = SCR.run_samples("C06s", scases)
+    napi = 0
     for c, x in zip(scases, res):
         o, m = x["impl"], x["model"]
         fi = SCR.impl_fields(o["f64"]) if "f64" in o else dict(tag="panic", why=str(o)[:100])
@@ -120,10 +140,30 @@ def run(rep, rng, tier, replay=None):
             d = SCR.cmp_field("x_pre", fi["x_pre"], m["x_pre"], 1e-12)
             if d:
                 rep.violation("correspondence", "pre-rescaling Feynman parameters (edge order): %s" % d[:2], case=c)
+        if fi["tag"] == "ok" and x["table"].get("ok") and fi.get("x_pre"):
+            # the removal order the sampler actually took (the k-th removed edge carries the k-th kappa, kappas decrease) against the
+            # first-crossing rule on the implementation's own table, level by level, with the edge-draw coordinates of the point
+            xp = SCR.floats(fi["x_pre"])
+            E = len(xp)
+            order = sorted(range(E), key=lambda e: -xp[e])
+            if len(set(xp)) == E and all(math.isfinite(v) and v > 0 for v in xp):
+                g = (1 << E) - 1
+                for k in range(E - 1):
+                    u = b2f(c["point"][2 * k])
+                    ps = prefix_sums(x["table"], g)
+                    exp = expected(ps, u)
+                    want = exp[0] if exp is not None else ps[-1][0]
+                    napi += 1
+                    if order[k] != want:
+                        rep.violation("property", "sampling removed edge %d at step %d (subgraph %d, edge draw u=%r) but the first edge whose running sum reaches u is %d" % (
+                            order[k], k, g, u, want), case=c, failing_input=True, what="the sampler's edge choice is not the inverse of the tropical edge distribution")
+                        break
+                    g ^= 1 << order[k]
         elif fi["tag"] != m["tag"]:
             rep.violation("correspondence", "outcome implementation %s model %s" % (fi, m), case=c)
     rep.cov["rule"] = ("accepted graphs E=2..%d; for up to 13 subgraph ids per graph with >=2 edges: u in {0, 2^-1074, 1-2^-53, its predecessor, two uniform draws, "
                        "every binary64 running sum and its two neighbours}; exact equality of (edge, remainder)/panic between hook and model, and against the "
-                       "first-crossing rule evaluated on the implementation's own table; plus samples through the public API with the first draw at 1-2^-53. "
+                       "first-crossing rule evaluated on the implementation's own table; plus samples through the public API with the first draw at 1-2^-53 or with every edge draw a relative 1e-7 beside a running sum of its level, whose whole removal order (read off the decreasing pre-rescaling parameters) is compared with the first-crossing rule level by level. "
                        "non-trivial = subgraph with >=3 edges and unequal probabilities" % (5 if tier == "quick" else 7))
     rep.cov["panics_seen"] = npanic
+    rep.cov["edge_choices_checked_through_the_public_api"] = napi
